@@ -8,6 +8,8 @@
 From Coq Require Import ZArith List Bool Lia.
 Import ListNotations.
 From VIsa Require Import IsaState ExecImpl ExecSpec ExecImplV ExecSpecV ExecProofs ExecRows ExecVProofs ExecVRowsA ExecBrev ExecVProofs64 ExecVRows64 ExecVThm ExecRefute.
+(* binary32 part (last section of this file): Flocq; these imports do not change the assumptions of the theorems above *)
+From VIsa Require Import IsaFloat ExecImplF ExecSpecF ExecFRows ExecFThm.
 Open Scope Z_scope.
 
 (** SOP2, 32-bit rows: every opcode either ALU implements (after the repairs of
@@ -223,3 +225,57 @@ Proof.
   intros a d r Hd Hr. destruct a; cbn in Hd, Hr; inversion Hd; inversion Hr; subst;
     unfold vadm, admv, is_vgpr; cbn; repeat split; auto; intros; try lia; left; reflexivity.
 Qed.
+
+
+(** * Binary32 instructions (Flocq).
+    Everything above this line is closed under the global context.  The
+    theorems of this section speak about IEEE 754 binary32 as formalised by
+    Flocq 4 ([IsaFloat]); Flocq's definitions rest on the classical real numbers of
+    Coq's standard library, so Print Assumptions lists the four assumptions of
+    that library (this development introduces none).  NaN payloads are not part
+    of the model: the differential check compares NaN results as a class.
+
+    [exec_vector_f] / [exec_spec_vf] are the complete vector transcriptions
+    (float rows first, the integer tables of the previous section otherwise);
+    they are what ./check C03 evaluates on the recorded runs. *)
+Theorem impl_eq_spec_float : forall a st i,
+  In (i_fmt i, i_op i) (frows a) -> wf st -> 0 <= i_lit i < W32 ->
+  (forall d r, vdesc_f a (i_fmt i) (i_op i) = Some d -> vrow_f a (i_fmt i) (i_op i) = Some r -> vadm d r i) ->
+  agree_vf a st i.
+Proof. exact float_agree. Qed.
+Print Assumptions impl_eq_spec_float.
+
+(** The integer theorems are statements about the complete model as well. *)
+Theorem complete_model_on_integer_rows : forall a st i,
+  In (i_fmt i, i_op i) ((F_VOP1, 2) :: vrows a ++ vrows64) ->
+  exec_vector_f a st i = exec_vector a st i /\ exec_spec_vf a st i = exec_spec_v a st i.
+Proof.
+  intros a st i Hin. destruct (int_rows_not_float a _ _ Hin) as [H1 H2].
+  unfold exec_vector_f, exec_spec_vf. rewrite H1, H2. split; reflexivity.
+Qed.
+Print Assumptions complete_model_on_integer_rows.
+
+(** CDNA3 v_fma_f32, v_fmac_f32, v_fmaak_f32, v_fmamk_f32: the manual prescribes
+    a fused multiply-add (one rounding); the handlers compute
+    float32(src0*src1) + src2 with two roundings.  Witness: a = b = 1 + 2^-23,
+    c = -RN(a*b); fused result 2^-46, handler result +0. *)
+Theorem cdna3_fused_refuted :
+  fused_refuted F_VOP3A 459 (mkInst F_VOP3A 459 256 257 258 259 0 0) 0 /\
+  fused_refuted F_VOP2 59 (mkInst F_VOP2 59 256 257 259 259 0 0) 3212836866 /\
+  fused_refuted F_VOP2 24 (mkInst F_VOP2 24 256 257 255 259 0 3212836866) 0 /\
+  fused_refuted F_VOP2 23 (mkInst F_VOP2 23 256 258 255 259 0 1065353217) 0.
+Proof. repeat split; try apply c_fma_f32; try apply c_fmac_f32; try apply c_fmaak_f32; try apply c_fmamk_f32. Qed.
+Print Assumptions cdna3_fused_refuted.
+
+Example ex_float_hyp :    (* v_mac_f32 v3, v0, v1 on GCN3: a float row with admissible operands *)
+  let i := mkInst F_VOP2 22 256 257 259 259 0 0 in
+  In (i_fmt i, i_op i) (frows GCN3) /\
+  forall d r, vdesc_f GCN3 (i_fmt i) (i_op i) = Some d -> vrow_f GCN3 (i_fmt i) (i_op i) = Some r -> vadm d r i.
+Proof.
+  cbv zeta. split; [unfold frows; cbn [In]; tauto|].
+  intros d r Hd Hr. cbn in Hd, Hr; inversion Hd; inversion Hr; subst;
+    unfold vadm, admv, is_vgpr; cbn; repeat split; auto; intros; try lia; left; reflexivity.
+Qed.
+Example ex_float_value :  (* 1.0 + 2.0 = 3.0; 0.1f * 3.0f rounds to 0x3e99999a *)
+  f32_add 1065353216 1073741824 = 1077936128 /\ f32_mul 1036831949 1077936128 = 1050253722.
+Proof. vm_compute. split; reflexivity. Qed.
